@@ -66,7 +66,7 @@ def run_case(chk, cfg, rng, nops, ops=None, origin=""):
 
 
 def run(chk: Check) -> int:
-    chk.prove(["theories/Props/C01.vo", "theories/Run/L1DRun.vo"], THEOREMS)
+    chk.prove(["theories/Props/C01.vo", "theories/Run/L1DRun.vo", "theories/Run/L1DLegal.vo"], THEOREMS)
     ncases = 250 if chk.quick else 4000
     maxlen = 28 if chk.quick else 100
     cases, metas = [], []
@@ -105,7 +105,7 @@ def run(chk: Check) -> int:
         except OverflowError:
             continue        # loss * 1e12 overflows int(): outside the property (DESIGN C01 N)
         add(cfg, l, rec, steps, orc, nres, f"seed{chk.seed}/{k}")
-    mism, _, errors = chk.coq_cases("cases", I.PREAMBLE, "case", cases, "check", None, shard=12)
+    mism, legal, errors = chk.coq_cases("cases", I.PREAMBLE + "\nFrom AV Require Import Run.L1DLegal.", "case", cases, "check", "is_legal", shard=12)
     for e in errors:
         chk.broke("correspondence", "Model/L1D.v cases could not be evaluated", e[-600:])
     for c, s in mism[:5]:
@@ -113,7 +113,7 @@ def run(chk: Check) -> int:
         chk.broke("correspondence", f"Model/L1D.v vs Learner1D: case {m['origin']} step {s}",
                   {"cfg": m["cfg"], "ops": m["ops"][:s + 1]})
     chk.extra.update({"op_histogram": hist, "feature_counts": stats, "cases_compared_in_coq": len(cases),
-                      "mismatches": len(mism), "exhaustive": False})
+                      "mismatches": len(mism), "legal_histories_per_coq": legal, "exhaustive": False})
     chk.log(f"correspondence: {len(cases)} cases, {len(mism)} mismatches; oracle failures {len(chk.failures)}; {stats}")
     return chk.finish(
         rule="histories generated by driving the real Learner1D (8 function shapes incl. discontinuous, 10^12 range growth, vector "
